@@ -9,6 +9,7 @@ NIGHTLY = os.environ.get("VERIF_NIGHTLY", "nightly")
 FEATURESETS = {
     "default": [],                       # what the baseline tests build (editorconfig only matters for the bin)
     "full": ["luau", "lua54", "luajit"],  # lua54 implies lua53, lua52
+    "editorconfig": ["editorconfig"],
 }
 EXIT_OK, EXIT_VIOLATION, EXIT_INCONCLUSIVE = 0, 1, 2
 
